@@ -15,6 +15,15 @@ def wellformed(cb, objs):
     return pos <= cb * BLOCK_W
 
 
+def parse_run2(op):
+    t = [int(x, 0) for x in op.split()[2:]]
+    na = t[0]
+    a = [(t[1 + 2 * i], t[2 + 2 * i]) for i in range(na)]
+    cb, nb = t[1 + 2 * na], t[2 + 2 * na]
+    b = [(t[3 + 2 * na + 2 * i], t[4 + 2 * na + 2 * i]) for i in range(nb)]
+    return a, cb, b
+
+
 def parse_case(op):
     if op.split()[1] != "run":
         raise ValueError("not a layout")
@@ -112,6 +121,22 @@ class Spec(unit.UnitSpec):
             probes = [p for p in probes if p < cb * BLOCK_W]
             flat = " ".join(f"{s} {m}" for s, m in objs)
             cases.append(Case([f"xducer run {cb} {len(objs)} {flat} {' '.join(map(str, probes))}".replace("  ", " ").strip()]))
+        # two adjacent regions: A full (cursor = A.end), B calculated BEFORE A (added after seeded change C37: a
+        # calculation that writes one entry beyond its cursor corrupts the neighbour's first block)
+        for i in range(n // 20):
+            a = self.layout(rng, 2048)
+            if rng.random() < 0.7:       # make A really full: last object ends at the region end
+                last_end = a[-1][0] + a[-1][1] if a else 0
+                if REGION_W - last_end >= 2:
+                    a.append((rng.choice([last_end, REGION_W - rng.choice([2, 3, 64, 65, 200])]), 0))
+                    a[-1] = (max(a[-1][0], last_end), REGION_W - max(a[-1][0], last_end))
+            cb = rng.choice([1, 2, 3, 8, rng.randrange(1, 49)])
+            b = self.layout(rng, cb)
+            if b and rng.random() < 0.7 and b[0][0] >= BLOCK_W:
+                b = [(rng.randrange(0, 40), 2)] + b          # something in B's first block
+            fa = " ".join(f"{s} {m}" for s, m in a)
+            fb = " ".join(f"{s} {m}" for s, m in b)
+            cases.append(Case([" ".join(f"xducer run2 {len(a)} {fa} {cb} {len(b)} {fb}".split())]))
         cases += [Case(["xducer run 3"]), Case(["xducer walk 1 0"]), Case(["xducer run 4097 0"]), Case(["xducer run 2 1 0 0"]),
                   Case(["xducer run 2 1 131071 2"])]
         return cases
@@ -121,11 +146,14 @@ class Spec(unit.UnitSpec):
                 Case(["xducer run 2 1 0 2"]), Case(["xducer run 1 0"]),
                 Case(["xducer run 4 3 0 64 64 64 128 128 63 64 127 128 255"]),          # block-edge to block-edge
                 Case(["xducer run 2048 2 0 2 131070 2 131070 131071 5"]),
-                Case(["xducer run 3 2 10 1 20 5 10 11 20 24 25"])]
+                Case(["xducer run 3 2 10 1 20 5 10 11 20 24 25"]),
+                Case(["xducer run2 2 0 8 131064 8 2 3 4 4 20 2 70 6"]), Case(["xducer run2 0 1 1 0 2"])]
 
     # -- the property's own statement ---------------------------------------------------------------
     def oracle(self, case, impl_out):
         out = impl_out[0] if impl_out else "crash"
+        if case.ops[0].split()[1:2] == ["run2"]:
+            return self.oracle2(case, out)
         try:
             cb, objs, probes = parse_case(case.ops[0])
         except Exception:
@@ -150,7 +178,34 @@ class Spec(unit.UnitSpec):
             live += 8 * n
         return bad
 
+    def oracle2(self, case, out):
+        try:
+            a, cb, b = parse_run2(case.ops[0])
+        except Exception:
+            return []
+        if not wellformed(2048, a) or not wellformed(cb, b) or cb * BLOCK_W > REGION_W:
+            return []
+        try:
+            f = dict(kv.split("=", 1) for kv in out.split())
+            got = {k: [] if f[k] == "-" else [x for x in f[k].split(",")] for k in ("fwdA", "fwdB")}
+            assert len(got["fwdA"]) == len(a) and len(got["fwdB"]) == len(b)
+        except Exception:
+            return [("xducer:garbage", f"well-formed two-region layout → {out[:100]!r}")]
+        bad = []
+        for name, objs in (("A", a), ("B", b)):
+            live = 0
+            for i, ((s, n), g) in enumerate(zip(objs, got["fwd" + name])):
+                if g != str(live):
+                    bad.append(("xducer:forward-not-prefix-sum:adjacent-regions",
+                                f"region {name} (A full, B = next region, B calculated before A): object {i} at word {s} "
+                                f"({n} words): forward = region+{g}, live bytes before it in its region = {live}"))
+                    break
+                live += 8 * n
+        return bad
+
     def nontrivial(self, case, out):
+        if case.ops[0].split()[1:2] == ["run2"]:
+            return True
         try:
             cb, objs, _ = parse_case(case.ops[0])
         except Exception:
